@@ -1,6 +1,8 @@
 package main
 
 import (
+	"strconv"
+	"os"
 	"math"
 	"github.com/pip-services3-gox/pip-services3-expressions-gox/calculator/functions"
 	"fmt"
@@ -175,7 +177,57 @@ func propC03(c *Ctx) {
 
 type weird struct{ a, b int }
 
+type panickyErr struct{}
+
+func (panickyErr) Error() string { panic("Error() fails") }
+
+type panickyStringer struct{}
+
+func (panickyStringer) String() string { panic("String() fails") }
+
+type panickyPtrStringer struct{ s string }
+
+func (p *panickyPtrStringer) String() string { return p.s }
+
+// a user function that re-enters the calculator it is called from (an Eval('<text>') helper): whatever the nested
+// expression is, the outer evaluation ends with a value or an error
+func runReentrantFunctions(c *Ctx) {
+	for _, nested := range []string{"1 + (2 + (3 + 4))", "2 * 3", "1 +", "x", "Max(1, 2, 3) + 1 * 2 - 3", "((((1))))", "1 + 2 + 3 + 4 + 5 + 6 + 7 + 8", "Eval()", ""} {
+		for _, outer := range []string{"1 + Eval()", "Eval()", "Eval() + Eval()", "Max(Eval(), 1) * 2", "1 + 2 * Eval() - 3 + 4 * 5", "NOT (Eval() = 1)"} {
+			op := "reenter " + strRunes(nested) + " " + strRunes(outer)
+			c.record(op, true)
+			c.count("reentrant-function")
+			st := safeCallT(3*time.Second, func() string {
+				calc := calculator.NewExpressionCalculator()
+				depth := 0
+				calc.DefaultFunctions().Add(functions.NewDelegatedFunction("Eval", func(p []*variants.Variant, o variants.IVariantOperations) (*variants.Variant, error) {
+					depth++
+					if depth > 3 {
+						return variants.VariantFromInteger(0), nil
+					}
+					if err := calc.SetExpression(nested); err != nil {
+						return nil, err
+					}
+					return calc.Evaluate()
+				}))
+				if err := calc.SetExpression(outer); err != nil {
+					return "parse-err"
+				}
+				r, err := calc.Evaluate()
+				if (r == nil) == (err == nil) {
+					return "neither-or-both"
+				}
+				return ""
+			})
+			if st != "" && st != "parse-err" {
+				c.fail(Failure{Kind: "oracle", Op: op, Impl: st, Note: fmt.Sprintf("a function that sets %q on its own calculator and evaluates it, called from %q: the evaluation must end with a value or an error", nested, outer)})
+			}
+		}
+	}
+}
+
 func runUserFunctionFailures(c *Ctx) {
+	runReentrantFunctions(c)
 	var nilMap map[string]int
 	var nilPtr *weird
 	fails := map[string]func(){
@@ -191,6 +243,15 @@ func runUserFunctionFailures(c *Ctx) {
 		"index":     func() { _ = []int{}[c.Rng.Intn(1)+1] },
 		"stringer":  func() { panic(time.Second) },
 		"runeslice": func() { panic([]rune("x")) },
+		// panic values whose own methods fail: a typed-nil error pointer (its Error() dereferences nil), an error and a
+		// Stringer whose methods panic themselves
+		"typednilerr":   func() { var e *os.PathError; panic(e) },
+		"typednilerr2":  func() { var e *strconv.NumError; panic(error(e)) },
+		"panickyerr":    func() { panic(panickyErr{}) },
+		"panickystr":    func() { panic(panickyStringer{}) },
+		"typednilstr":   func() { var e *panickyPtrStringer; panic(e) },
+		"panicnil":      func() { panic(nil) },
+		"errnilpayload": func() { panic(&os.PathError{}) },
 	}
 	for name, f := range fails {
 		for _, expr := range []string{"Boom()", "1 + Boom()", "Boom() = 1", "NOT Boom()", "Max(1, Boom())", "Array(1, Boom())[0]", "Boom(1, 2) + Boom()"} {
